@@ -32,13 +32,15 @@ Lemma e_fail_fields e r :
   (is_fail e = true -> e_fail e r = e) /\
   (is_fail e = false -> fail_q (e_fail e r) = Some r /\ is_ready (e_fail e r) = false).
 Proof.
-  unfold e_fail. destruct (is_fail e) eqn:E; cbn; repeat split; auto; try discriminate.
+  unfold e_fail. destruct (is_fail e) eqn:E; cbn [listeners recv minexp e_deliver e_blob e_inv_amount rdy_q is_fail fail_q is_ready].
+  - repeat split; auto; congruence.
+  - repeat split; auto; congruence.
 Qed.
 
 Lemma EInv_fail c e r : EInv c e -> EInv c (e_fail e r).
 Proof.
   intros [H1 H2 H3 H4 H5 H6]. unfold e_fail. destruct (is_fail e) eqn:E; [constructor; auto|].
-  constructor; cbn; auto; try discriminate. intros Hr. right; reflexivity.
+  constructor; cbn; auto; try discriminate.
 Qed.
 
 Lemma min_sat a b : N.min u64max (N.min u64max a + b) = N.min u64max (a + b).
@@ -135,11 +137,13 @@ Proof.
   intros HE (Hf & Hq). split; [apply (e_handle_mono c e h HE); exact Hf|].
   unfold e_handle, e_add. cbn [rdy_q is_fail is_ready].
   set (e3 := if fee_sufficient (pol c) (total h) (deliver h) then _ else _).
+  assert (F : forall x r, rdy_q x = false /\ is_fail x = true -> rdy_q (e_fail x r) = false /\ is_fail (e_fail x r) = true).
+  { intros x r (A & B). destruct (e_fail_fields x r) as (_ & _ & _ & _ & _ & _ & X & Y & _). rewrite X, Y. auto. }
   assert (K : rdy_q e3 = false /\ is_fail e3 = true).
-  { unfold e3. repeat match goal with
-    | |- context [if ?b then _ else _] => destruct b
-    | |- context [e_fail ?x ?r] => destruct (e_fail_fields x r) as (_ & _ & _ & _ & _ & _ & -> & -> & _)
-    end; auto. }
+  { unfold e3.
+    destruct (fee_sufficient (pol c) (total h) (deliver h)); [|apply F];
+    (destruct (rel h <? Z.of_N (pol_delta (pol c)))%Z; [apply F|]);
+    (destruct (bytes_eq (blob h) (e_blob e) && (deliver h =? e_deliver e)); [auto|apply F; auto]). }
   destruct K as (-> & ->). cbn. rewrite andb_false_r. reflexivity.
 Qed.
 
